@@ -206,6 +206,53 @@ func c17CheckHistory(c *fw.Ctx, h []int) string {
 	return key.String()
 }
 
+// ---- long live histories: m registrations of one filler range (m+3 next to 16, 32, 64, 128, 256 and the
+// sizes next to integer constants that are new in the working tree), then every triple of high ranges;
+// all probes are looked up after each of the last three registrations
+
+func c17LongSizes() []int {
+	out := []int{}
+	seen := map[int]bool{}
+	for _, t := range append([]int{16, 32, 64, 128, 256}, newSizes()...) {
+		for _, m := range []int{t - 3, t - 2, t - 1} {
+			if m >= 1 && !seen[m] {
+				seen[m] = true
+				out = append(out, m)
+			}
+		}
+	}
+	return out
+}
+
+func c17LongHistory(c *fw.Ctx, m int, triple []int) {
+	mp := utilities.NewCharReferenceMap()
+	filler := c17Op{kind: 0, start: 0x5000, end: 0x5001, ref: 1}
+	ivs := []c17Interval{}
+	for i := 0; i < m; i++ {
+		c17Apply(mp, filler)
+	}
+	ivs = append(ivs, c17Interval{filler.start, filler.end, filler.ref})
+	names := []string{"A", "B", "nil"}
+	for step, oi := range triple {
+		c17Apply(mp, c17Ops[oi])
+		ivs = c17ModelApply(ivs, c17Ops[oi])
+		for _, p := range append(append([]rune{}, c17Probes...), 0x5000, 0x5001, 0x5002) {
+			var got string
+			if pv := fw.Try(func() { got = c17Classify(mp.Lookup(p)) }); pv != nil {
+				got = "panic"
+			}
+			if want := names[c17ModelLookup(ivs, p)]; got != want {
+				c.Violation("lookup-after-many-registrations", "after %d registrations of [0x5000,0x5001]=B and then [%s]: Lookup(%#x) = %s, the latest covering registration says %s", m, c17HistStr(triple[:step+1]), p, got, want)
+				return
+			}
+		}
+	}
+	c.Eval(1)
+	c.Nontrivial()
+	c.Count("states", 1)
+	c.Count("transitions", int64(m+3))
+}
+
 // BFS with probe-vector canonicalisation (closure or depth cap).
 func c17BFS(c *fw.Ctx, depthCap int) {
 	seen := map[string]bool{}
@@ -389,7 +436,7 @@ func init() {
 		ID:    "C17",
 		Level: "model_checking",
 		Rule: "all histories of AddInterval/AddDefaultInterval/Clear over the boundary endpoints x {A,B,nil} up to the depth bound, each replayed on a fresh CharReferenceMap and compared probe by probe (17 probes: endpoints and neighbours) with an interval-list model by reference identity; " +
-			"plus an explicit-state BFS with the probe vector as state key; plus derived checks through a real tokenizer's dispatch table and the word/whitespace states' range toggles (after Clear and on top of the default ranges, three probe texts, and an untouched second state must keep its defaults); every history is non-trivial except the empty one",
+			"plus every triple of registrations above U+00FF on top of 13..255 live filler registrations; plus an explicit-state BFS with the probe vector as state key; plus derived checks through a real tokenizer's dispatch table and the word/whitespace states' range toggles (after Clear and on top of the default ranges, three probe texts, and an untouched second state must keep its defaults); every history is non-trivial except the empty one",
 		Assume: []string{"probe-vector canonicalisation: equal probe vectors have equal futures on the probes for any implementation that answers lookups from the latest covering registration; the un-merged full enumeration does not rely on it"},
 		Spaces: func(tier string) []fw.Space {
 			depth, bfsDepth := 2, 3
@@ -421,6 +468,17 @@ func init() {
 						n := int64(len(ho))
 						return "[" + c17HistStr([]int{ho[i/(n*n)], ho[i/n%n], ho[i%n]}) + "]"
 					}},
+				{Name: "long-live-histories", N: int64(len(c17LongSizes())) * int64(len(c17HighOps())) * int64(len(c17HighOps())) * int64(len(c17HighOps())), Run: func(c *fw.Ctx, i int64) {
+					ho := c17HighOps()
+					n := int64(len(ho))
+					t := i % (n * n * n)
+					c17LongHistory(c, c17LongSizes()[i/(n*n*n)], []int{ho[t/(n*n)], ho[t/n%n], ho[t%n]})
+				}, Repr: func(i int64) string {
+					ho := c17HighOps()
+					n := int64(len(ho))
+					t := i % (n * n * n)
+					return fmt.Sprintf("%d filler registrations, then [%s]", c17LongSizes()[i/(n*n*n)], c17HistStr([]int{ho[t/(n*n)], ho[t/n%n], ho[t%n]}))
+				}},
 				{Name: "pumped-histories", N: (countStrings(k, 2) - 1) * 6, Run: func(c *fw.Ctx, i int64) {
 					base := seqByIndex(k, 1+i/6)
 					n := []int{3, 8, 9, 17, 33, 65}[i%6]
